@@ -212,7 +212,8 @@ func WakePublishListeners(onlyInternal bool, subIDs ...uuid.UUID) {
 	for _, subID := range subIDs {
 		waitSet := pubWaiters[subID]
 		if waitSet == nil {
-			return
+			// nobody waits on this subscription, the others may still have waiters
+			continue
 		}
 		for c := range waitSet {
 			close(c)
